@@ -119,6 +119,10 @@ func cmdCheck(args []string) {
 		os.Exit(2)
 	}
 	want := map[string]bool{prop: true}
+	if *tier == "thorough" {
+		// clauses tagged Cxx@thorough are obligations of the thorough tier only (slow queries)
+		want[prop+"@thorough"] = true
+	}
 	for _, t := range pc.ExtraTags {
 		want[t] = true
 	}
@@ -204,7 +208,7 @@ func cmdCheck(args []string) {
 		solveAll(res.Covers, res.Candidates, *tier, true)
 		for _, c := range res.Covers {
 			covers++
-			if c.Verdict == "unsat" {
+			if c.Verdict == "unsat" && !c.Soft && (c.Pair == nil || c.Pair.Verdict == "sat") {
 				engineFaults = append(engineFaults, "vacuity: "+c.Name+" is unsatisfiable ("+c.Desc+")")
 			}
 		}
@@ -240,12 +244,22 @@ func cmdCheck(args []string) {
 		}
 	}
 	var samples []interface{}
+	confirmed := 0
+	unconfirmed := []string{}
 	for _, o := range all {
 		solverSeconds += o.Seconds
 		bySolver[o.Solver]++
 		reports = append(reports, oblReport{o.Name, o.Kind, o.Pos, o.Desc, o.Verdict, o.Solver, o.Seconds, o.Tags})
 		if o.Verdict == "unsat" {
 			discharged++
+			switch {
+			case o.Confirm == "confirmed":
+				confirmed++
+			case strings.HasPrefix(o.Confirm, "CONTRADICTED"):
+				engineFaults = append(engineFaults, "solvers disagree on "+o.Name+": "+o.Confirm)
+			case o.Confirm == "unconfirmed":
+				unconfirmed = append(unconfirmed, o.Name)
+			}
 			if len(samples) < 5 && o.Solver != "simplifier" {
 				samples = append(samples, map[string]string{"obligation": o.Name, "at": o.Pos, "goal": o.Desc, "verdict": "discharged by " + o.Solver})
 			}
@@ -317,6 +331,7 @@ func cmdCheck(args []string) {
 			"known_findings_failed":      knownFailed,
 			"solver_seconds_total":       solverSeconds,
 			"discharged_by":              bySolver,
+			"second_solver":              secondSolverReport(*tier, confirmed, unconfirmed),
 			"obligation_list":            reports,
 			"engine_faults":              engineFaults,
 			"contract_files":             relFiles(P.cs.Files),
@@ -394,6 +409,17 @@ func relFiles(fs []string) []string {
 func gitStatus(repo string) string {
 	out, _ := exec.Command("git", "-C", repo, "status", "--porcelain").Output()
 	return string(out)
+}
+
+func secondSolverReport(tier string, confirmed int, unconfirmed []string) interface{} {
+	if tier != "thorough" {
+		return "not run in the quick tier"
+	}
+	return map[string]interface{}{
+		"what":        "every discharged obligation was decided again by a solver of a different family (10 s per query, 120 s per function; what is not confirmed in that time is listed, it is not an alarm)",
+		"confirmed":   confirmed,
+		"unconfirmed": unconfirmed,
+	}
 }
 
 func writeEngineFault(root string, pc *PropConfig, tier string, seed int, t0 time.Time, msg string) {
